@@ -16,7 +16,9 @@ import (
 	"os"
 	"strings"
 
+	"github.com/dominant-strategies/go-quai/common"
 	"github.com/dominant-strategies/go-quai/core/types"
+	"github.com/dominant-strategies/go-quai/ethdb"
 	"github.com/dominant-strategies/go-quai/params"
 
 	"verifharness/hlib"
@@ -120,6 +122,7 @@ type caseJS struct {
 	Scenario *Scenario             `json:"scenario"`
 	Proc     map[string][]BlockObs `json:"proc,omitempty"`   // per backend
 	Worker   *WorkerObs            `json:"worker,omitempty"` // memorydb
+	Zone     *ZoneObs              `json:"zone,omitempty"`   // real StateProcessor.Process of a one-zone node
 }
 
 func sameJSON(a, b any) bool {
@@ -153,7 +156,7 @@ func sameJSON(a, b any) bool {
 // checkSig is, and monitorsPool checks the pool's admissions and the cache itself.
 
 func denVal(d uint8) *big.Int {
-	if v, ok := types.Denominations[d]; ok {
+	if v, ok := denomSnapshot[d]; ok {
 		return v
 	}
 	return big.NewInt(0)
@@ -426,10 +429,66 @@ func qiWrappingChangeBlock() uint64 { return params.QiWrappingChangeBlock }
 
 // ---------- main ----------
 
+// ---------- shared constants stay what they are ----------
+//
+// types.Denominations is a package-level map of *big.Int that ProcessQiTx, the worker, the pool and every
+// monitor above read: an operation that aliases an entry (x := types.Denominations[d]; x.Add(x, ..)) changes the
+// value of money for every later transaction of the process.  The table is copied at start-up and compared after
+// every scenario (monitor constants-immutable), and the monitors' denVal reads the copy.
+
+var denomSnapshot = map[uint8]*big.Int{}
+
+func snapshotConstants() {
+	for d, v := range types.Denominations {
+		denomSnapshot[d] = new(big.Int).Set(v)
+	}
+}
+
+func monitorConstants(rep *hlib.Report, c caseJS, s *Scenario) {
+	bad := len(types.Denominations) != len(denomSnapshot)
+	for d, v := range denomSnapshot {
+		if cur, ok := types.Denominations[d]; !ok || cur == nil || cur.Cmp(v) != 0 {
+			bad = true
+		}
+	}
+	if bad {
+		rep.Fail("monitor=constants-immutable site=types.Denominations", fmt.Sprintf("scenario %q: the shared denomination table was modified while the scenario ran", s.Name), c)
+		for d, v := range denomSnapshot { // repair, so that one aliasing bug is reported where it happens and not by every later scenario
+			types.Denominations[d] = new(big.Int).Set(v)
+		}
+	}
+}
+
 func runScenario(rep *hlib.Report, cw *hlib.CaseWriter, s *Scenario, id int, bks []backend, tmp string, sigRng *hlib.Rng) {
+	setLoc(s)
+	rep.Count(fmt.Sprintf("location:[%d,%d]", nodeLoc[0], nodeLoc[1]))
+	if s.Restart {
+		rep.Count("restart-between-blocks")
+	}
+	defer func() { monitorConstants(rep, caseJS{ID: id, Scenario: s}, s) }()
 	keys := make([]keyInfo, len(s.Keys))
 	for i, k := range s.Keys {
 		keys[i] = mkKey(k)
+	}
+	if s.Kind == "zone" {
+		// no Coq case: the frame of StateProcessor.Process is outside the model (monitors only, zone.go)
+		rep.Evaluations++
+		rep.Count("kind:zone")
+		zo, ztxs := runZone(s, keys, sigRng)
+		c := caseJS{ID: id, Scenario: s, Zone: &zo}
+		rep.TracesValidated++
+		if zo.Setup != "" {
+			rep.Count("zone:setup failed")
+			rep.Note(fmt.Sprintf("zone scenario %q: node not brought up: %s", s.Name, zo.Setup))
+			return
+		}
+		monitorsZone(rep, c, s, ztxs, zo)
+		for _, b := range zo.Bodies {
+			if b.OK {
+				rep.Nontrivial(fmt.Sprintf("zone/%d", id))
+			}
+		}
+		return
 	}
 	mkCtxs := func() []*builtCtx {
 		cs := make([]*builtCtx, len(s.Blocks))
@@ -459,7 +518,12 @@ func runScenario(rep *hlib.Report, cw *hlib.CaseWriter, s *Scenario, id int, bks
 		var first []BlockObs
 		for bi, bk := range bks {
 			db, closeFn := bk.open(tmp)
-			obs := runProc(db, s, mkCtxs(), txs)
+			var restart func(ethdb.Database) ethdb.Database
+			if bk.restart != nil {
+				bk := bk
+				restart = func(d ethdb.Database) ethdb.Database { return bk.restart(tmp, d) }
+			}
+			obs := runProc(db, s, mkCtxs(), txs, restart)
 			closeFn()
 			c.Proc[bk.name] = obs
 			rep.TracesValidated++
@@ -624,7 +688,7 @@ func runScenario(rep *hlib.Report, cw *hlib.CaseWriter, s *Scenario, id int, bks
 		// ValidateQiTxInputs), so accepted transactions the pool would refuse are left out of the replay; leaving
 		// transactions out only frees gas, ETX limits and outpoints, and can only move the firstQiTx exemption
 		// forward, so the remaining list must still be accepted.
-		acc := &Scenario{Kind: "proc", Name: s.Name + "/accepted-by-worker", Tracks: true, Keys: s.Keys, Base: s.Base,
+		acc := &Scenario{Kind: "proc", Name: s.Name + "/accepted-by-worker", Tracks: true, Keys: s.Keys, Base: s.Base, Loc: s.Loc,
 			Blocks: []BlockSpec{{Ctx: s.Blocks[0].Ctx}}}
 		var accTxs []*builtTx
 		var accObs []*TxObs
@@ -717,6 +781,7 @@ func main() {
 		"conversion / wrapping / cross-zone outputs, limits, fork regimes); non-trivial = at least one transaction accepted; distinct by scenario")
 	cw := hlib.NewCaseWriter(f.Out, "From Coq Require Import String List NArith Bool.\nFrom GQ Require Import Lib.Key Lib.SMap Model.C01.\nImport ListNotations.\nLocal Open Scope N_scope.\nLocal Open Scope string_scope.\n", "C01.case", 12)
 	bks := backends()
+	snapshotConstants()
 	tmp, _ := os.MkdirTemp("", "verif-c01-")
 	defer os.RemoveAll(tmp)
 	defer func() {
@@ -734,13 +799,49 @@ func main() {
 		runScenario(rep, cw, c.Scenario, c.ID, bks, tmp, hlib.NewRng(f.Seed))
 		return
 	}
-	p := newPool(rng.Fork())
+	p := newPool(rng.Fork(), common.Location{0, 0})
 	sigRng := rng.Fork()
 	id := 0
 	for _, s := range corpus(p, rng.Fork()) {
 		rep.Count("corpus")
 		runScenario(rep, cw, s, id, bks, tmp, sigRng)
 		id++
+	}
+	// the same targeted shapes at node locations other than [0,0] (region != zone number; zone 0 of another
+	// region): everything that decides "local / other zone / other region" and the ledger of an address
+	locs := []common.Location{{1, 2}, {2, 0}, {0, 1}, {2, 1}}
+	pools := map[string]*pool{string(p.loc): p}
+	for _, l := range locs {
+		pools[string(l)] = newPool(rng.Fork(), l)
+	}
+	for li, l := range locs[:2] {
+		want := relocated[li]
+		for _, s := range corpus(pools[string(l)], rng.Fork()) {
+			if !want[s.Name] {
+				continue
+			}
+			s.Name = fmt.Sprintf("%s@[%d,%d]", s.Name, l[0], l[1])
+			rep.Count("corpus")
+			rep.Count("corpus:relocated")
+			runScenario(rep, cw, s, id, bks, tmp, sigRng)
+			id++
+		}
+	}
+	// the real StateProcessor.Process of a one-zone node behind its real pool (zone.go)
+	// (location [0,0] only: the mini node has no dominant chains and cannot be brought up elsewhere)
+	for _, s := range zoneCorpus(p, rng.Fork()) {
+		rep.Count("corpus")
+		runScenario(rep, cw, s, id, bks, tmp, sigRng)
+		id++
+	}
+	for i := 0; i < f.N/8; i++ {
+		s := randomZone(rng.Fork(), p)
+		s.Name = fmt.Sprintf("random-zone-%d", i)
+		runScenario(rep, cw, s, id, bks, tmp, sigRng)
+		id++
+	}
+	if zoneHonestBodies > 0 && zoneHonestAccepted == 0 {
+		rep.Fail("monitor=zone-control site=process", fmt.Sprintf("none of the %d all-honest block bodies was accepted by StateProcessor.Process: the zone monitors are vacuous", zoneHonestBodies), caseJS{ID: id})
 	}
 	for i := 0; i < f.N; i++ {
 		kind := "proc"
@@ -751,13 +852,23 @@ func main() {
 			kind = "pool"
 		}
 		sr := rng.Fork()
+		// half of the random scenarios run at [0,0], the others at one of the other locations (pool scenarios:
+		// zone 0 of another region -- at expansion number 0 the pool refuses outputs to any other zone number)
+		rp := p
+		if lr := sr.Fork(); lr.Chance(50) {
+			rp = pools[string(locs[lr.Intn(len(locs))])]
+			if kind == "pool" {
+				rp = pools[string(common.Location{2, 0})]
+			}
+		}
 		var s *Scenario
 		if kind == "pool" {
-			s = randomScenario(sr, p, "proc", rep)
+			s = randomScenario(sr, rp, "proc", rep)
 			s.Tracks = true
+			s.Restart = false
 			s = poolify(sr, s, rep)
 		} else {
-			s = randomScenario(sr, p, kind, rep)
+			s = randomScenario(sr, rp, kind, rep)
 		}
 		s.Name = fmt.Sprintf("random-%d", i)
 		for _, b := range s.Blocks {
@@ -773,6 +884,31 @@ func main() {
 		runScenario(rep, cw, s, id, bks, tmp, sigRng)
 		id++
 	}
+}
+
+// relocated: the corpus scenarios repeated at locs[0] = [1,2] and locs[1] = [2,0]
+var relocated = []map[string]bool{
+	setOf("valid-1in", "valid-2in", "F1-same-outpoint-twice-in-tx", "same-outpoint-two-txs-one-block", "spend-created-in-same-block",
+		"wrong-key", "repeated-key-second-input-foreign", "quai-ledger-key", "bad-signature", "locked-until-1000-at-999", "output-to-input-owner",
+		"etx-region", "etx-prime", "etx-to-quai-elsewhere", "etx-ineligible-slice", "etx-region-limit", "etx-prime-limit-exact",
+		"conversion", "conversion-aggregated", "conversion-refund-not-qi", "quai-output-without-data", "wrapping-after-fork",
+		fmt.Sprintf("wrapping-at-prime-terminus-%d", params.QiWrappingChangeBlock-1), "wrapping-owner-in-qi-ledger", "wrapping-owner-other-zone",
+		"merge-up-second-tx-rejected", "entry-owned-in-other-zone-spent-with-its-key", "entry-owned-in-other-zone-spent-with-local-key",
+		"etx-same-zone-number-other-region", "conversion-refund-in-other-zone", "conversion-target-in-other-zone", "etx-to-swapped-location",
+		"conversion-target-at-swapped-location", "wrapping-owner-at-swapped-location", "etx-swapped-location-ineligible", "etx-only-target-slice-eligible",
+		"restart-spend-created-next-block", "worker-valid", "worker-triple-spend", "worker-etx", "worker-conversion", "worker-etx-ineligible-leaks-gas",
+		"worker-quai-owned-entry", "worker-etx-to-swapped-location"),
+	setOf("valid-1in", "etx-region", "etx-prime", "conversion", "wrapping-after-fork", "wrapping-owner-other-zone", "etx-to-swapped-location",
+		"conversion-target-at-swapped-location", "worker-etx", "pool-valid-then-block", `pool-forged-other-via-""-then-block`,
+		`pool-forged-bad-via-"reorg"-then-block`, "pool-block-then-forged-spend-of-its-output-then-block"),
+}
+
+func setOf(xs ...string) map[string]bool {
+	m := map[string]bool{}
+	for _, x := range xs {
+		m[x] = true
+	}
+	return m
 }
 
 // errBucket maps an error text to a coarse bucket for the distribution report (statistics only).
